@@ -218,13 +218,13 @@ func vmain() {
 		os.Unsetenv("PLUGIN_MULTIPLEX_GRPC")
 	}
 	crashIf("before-output")
+	if cfg.PreOutput != "" {
+		io.WriteString(os.Stdout, cfg.PreOutput)
+	}
 	if cfg.PartialLine != "" {
 		io.WriteString(os.Stdout, cfg.PartialLine)
 		os.Stdout.Sync()
 		os.Exit(3)
-	}
-	if cfg.PreOutput != "" {
-		io.WriteString(os.Stdout, cfg.PreOutput)
 	}
 	sc := &plugin.ServeConfig{
 		HandshakeConfig: plugin.HandshakeConfig{ProtocolVersion: cfg.Version, MagicCookieKey: cfg.CookieKey, MagicCookieValue: cfg.CookieValue},
